@@ -44,9 +44,22 @@ func init() {
 			return err
 		}
 		r.Units = append(r.Units, u)
-		r.verifyFuncs(u, keys)
+		// the tree builder (builderKeys) belongs to property C10
+		isBuilder := map[string]bool{}
+		for _, k := range builderKeys {
+			isBuilder[k] = true
+		}
+		var own []string
+		for _, k := range keys {
+			if !isBuilder[k] {
+				own = append(own, k)
+			}
+		}
+		r.verifyFuncs(u, own)
 		return nil
 	}})
+	// C10: the tree builder as a stack machine, the escape table and the stack discipline of peg.peg (builder.go)
+	register(&propertyDef{ID: "C10", Level: "proof", Run: runC10})
 	register(&propertyDef{ID: "C02", Level: "translation_validation", Run: func(r *Run) error {
 		return runClosureProperty(r, "C02", [][]string{{"-inline"}, {"-switch"}, {"-inline", "-switch"}}, false)
 	}})
@@ -136,7 +149,7 @@ func runClosureProperty(r *Run, id string, optSets [][]string, corpusOnly bool) 
 	if corpusOnly {
 		var keep []programSpec
 		for _, p := range progs {
-			if strings.HasPrefix(p.Grammar, repoDir+"/") {
+			if !strings.Contains(p.Name, "schema") && !strings.HasPrefix(p.Name, "hz-") {
 				keep = append(keep, p)
 			}
 		}
@@ -218,7 +231,7 @@ func runClosureProperty(r *Run, id string, optSets [][]string, corpusOnly bool) 
 // runtimeFuncs: which functions of the parser runtime (template) carry which property.
 var runtimeFuncs = map[string][]string{
 	"C01": {"Init.matchDot", "Init.parse"},
-	"C03": {"tokens.Add", "tokens.Trim", "Init.add", "Init.parse"},
+	"C03": {"tokens.Add", "tokens.Trim", "Init.add", "Init.parse", "Init.memoizedResult"},
 	"C04": {"tokens.Tokens", "$T.Execute"},
 	"C05": {"tokens.Tokens", "tokens.AST", "print.printFunc", "node.print", "node.Print", "node.PrettyPrint", "tokens.PrintSyntaxTree", "tokens.WriteSyntaxTree",
 		"tokens.PrettyPrintSyntaxTree", "$T.PrintSyntaxTree", "$T.WriteSyntaxTree", "$T.SprintSyntaxTree"},
